@@ -229,6 +229,8 @@ def fmt_num(v, how):
         s = '%.6e' % v
         if float(s) == v:
             return s, v
+    if how == 'plus':            # an explicit sign on every number (+6.0, -2.0), as Python literals allow
+        return ('%+r' % v if False else ('+' + repr(v) if v >= 0 else repr(v))), v
     return repr(v), v
 
 
@@ -512,7 +514,7 @@ def explore(ctx):
     seen_text = set()
     for (cls, kw), name, br, ws, num in itertools.product(
             kwsets, ['exact', 'lower', 'upper'], ['tuple', 'list'], ['doc', 'compact', 'spaced', 'trail'],
-            ['repr', 'int', 'exp']):
+            ['repr', 'int', 'exp', 'plus']):
         has_seq = any(isinstance(v, list) for _, v in kw)
         if br == 'list' and not has_seq:
             continue
